@@ -9,6 +9,10 @@
 //! `timestamp_nanos()` through `DateTime<FixedOffset>` and `DateTime<Local>` (real zones from the
 //! environment: the offset must not enter), `Local.timestamp_*`, the deprecated `NaiveDateTime::timestamp*`
 //! accessors as correspondence ops, and a dense family on the second -9223372038 (finding F27).
+//! Round 2 (audit2/C02.md): `DateTime::<Local>::from(SystemTime)` (op `ts.from_st_local` + oracle), the
+//! leap-second values through `SystemTime` are judged (theorem `leap_st_back`: non-leap value in the
+//! following second, a panic exactly on the last representable second), and dense sweeps (every second /
+//! every count in a window around each boundary point, rotating nanosecond classes).
 #![allow(deprecated)]
 use super::c01::{day_num, gen_date, month_len, yof, MAX_YEAR, MIN_YEAR};
 use crate::ctx::*;
@@ -130,7 +134,7 @@ type LocalOut = (Vec<(String, String)>, Vec<(String, String)>, BTreeMap<String, 
 /// zone prescribes (C05's business); C02's claim is that it does not enter: the UTC reading and every
 /// count are those of `DateTime<Utc>`.  The correspondence lines carry the offset the implementation
 /// chose, so the model is asked about exactly that zone-aware value.
-fn through_local(tz: &str, vals: Vec<NaiveDateTime>, cases: Vec<(i64, u32)>, counts: Vec<(i64, u8)>) -> LocalOut {
+fn through_local(tz: &str, vals: Vec<NaiveDateTime>, cases: Vec<(i64, u32)>, counts: Vec<(i64, u8)>, sts: Vec<(i64, u32)>) -> LocalOut {
     let old = std::env::var("TZ").ok();
     std::env::set_var("TZ", tz);
     let tzs = tz.to_string();
@@ -162,6 +166,11 @@ fn through_local(tz: &str, vals: Vec<NaiveDateTime>, cases: Vec<(i64, u32)>, cou
             }
             if guard(|| st_obs(SystemTime::from(z))) != guard(|| st_obs(SystemTime::from(u))) {
                 fails.push(("SystemTime::from(DateTime<Local>) differs from SystemTime::from(DateTime<Utc>) of the same instant".into(), format!("TZ={tzs} {key}")));
+            }
+            // DateTime<Local> -> SystemTime -> DateTime<Local>: the same UTC reading (or the same panic) as
+            // DateTime<Utc> -> SystemTime -> DateTime<Utc>, which the main loop judges against the property
+            if guard(|| DateTime::<Local>::from(SystemTime::from(z)).naive_utc()) != guard(|| DateTime::<Utc>::from(SystemTime::from(u)).naive_utc()) {
+                fails.push(("DateTime<Local> -> SystemTime -> DateTime<Local> differs from the same round trip through DateTime<Utc>".into(), format!("TZ={tzs} {key}")));
             }
             ops.push((format!("ts.zget {key} {off}"), zg));
             ops.push((format!("ts.zsub {key} {off}"), zs));
@@ -223,6 +232,40 @@ fn through_local(tz: &str, vals: Vec<NaiveDateTime>, cases: Vec<(i64, u32)>, cou
                     *cnt.entry(format!("local:timestamp_{name} None")).or_insert(0) += 1;
                 }
                 Err(()) => fails.push((format!("Local.timestamp_{name}* panicked"), format!("TZ={tzs} {x}"))),
+            }
+        }
+        // `impl From<SystemTime> for DateTime<Local>`: judged against the property itself (the instant,
+        // non-leap, a panic exactly outside the representable range), then against the `Utc` conversion
+        let (lo, hi) = (min_ts(), max_ts());
+        for &(s, n) in &sts {
+            let Some(t) = st_make(s, n) else { continue };
+            let in_range = lo <= s && s <= hi;
+            let rl = guard(|| DateTime::<Local>::from(t));
+            let ru = guard(|| DateTime::<Utc>::from(t).naive_utc());
+            match &rl {
+                Ok(l) => {
+                    let off = chrono::Offset::fix(l.offset()).local_minus_utc();
+                    offs.insert(off);
+                    let nu = l.naive_utc();
+                    if !in_range || inst_ns(&nu) != s as i128 * NS + n as i128 || nu.nanosecond() >= 1_000_000_000 {
+                        fails.push(("DateTime::<Local>::from(SystemTime) is not the non-leap value at the same instant".into(), format!("TZ={tzs} ts.from_st_local {off} {s} {n} -> {}", show_dt(&nu))));
+                    } else if ru != Ok(nu) {
+                        fails.push(("DateTime::<Local>::from(SystemTime) differs from DateTime::<Utc>::from(SystemTime)".into(), format!("TZ={tzs} ts.from_st_local {off} {s} {n}")));
+                    } else if guard(|| st_obs(SystemTime::from(*l))) != Ok((s as i128, n)) {
+                        fails.push(("SystemTime -> DateTime<Local> -> SystemTime is not the identity".into(), format!("TZ={tzs} ts.from_st_local {off} {s} {n}")));
+                    }
+                    ops.push((format!("ts.from_st_local {off} {s} {n}"), show_z(l)));
+                    *cnt.entry(if s < 0 { "local:from(SystemTime) value, before epoch" } else { "local:from(SystemTime) value, epoch or later" }.into()).or_insert(0) += 1;
+                }
+                Err(()) => {
+                    if in_range {
+                        fails.push(("DateTime::<Local>::from(SystemTime) panicked on a representable instant".into(), format!("TZ={tzs} ts.from_st_local 0 {s} {n}")));
+                    } else if ru.is_ok() {
+                        fails.push(("DateTime::<Local>::from(SystemTime) panics where DateTime::<Utc>::from(SystemTime) does not".into(), format!("TZ={tzs} ts.from_st_local 0 {s} {n}")));
+                    }
+                    ops.push((format!("ts.from_st_local 0 {s} {n}"), "panic".into()));
+                    *cnt.entry("local:from(SystemTime) panic (outside the range)".into()).or_insert(0) += 1;
+                }
             }
         }
         *cnt.entry(format!("local:distinct offsets met in TZ={tzs}")).or_insert(0) += offs.len() as u64;
@@ -351,6 +394,13 @@ fn gen_dt(c: &mut Ctx, pts: &[i128]) -> NaiveDateTime {
     NaiveDateTime::new(date, t)
 }
 
+/// the value on second count `s` (inside the range) with nanosecond field `frac` (< 2*10^9, any second)
+fn dt_at(s: i64, frac: u32) -> NaiveDateTime {
+    let d = NaiveDate::from_num_days_from_ce_opt((s.div_euclid(86_400) + EPOCH_DAY) as i32).unwrap();
+    NaiveDateTime::new(d, NaiveTime::from_num_seconds_from_midnight_opt(s.rem_euclid(86_400) as u32, 0).unwrap().with_nanosecond(frac).unwrap())
+}
+const FRAC_CLASSES: [u32; 12] = [0, 1, 499_999_999, 500_000_000, 999_999_999, 1_000_000_000, 1_000_000_001, 1_500_000_000, 1_999_999_999, 145_224_192, 854_775_807, 1_145_224_192];
+
 pub fn run(c: &mut Ctx) {
     let mut fl = Fails(BTreeMap::new());
     let pts = sec_points();
@@ -386,6 +436,23 @@ pub fn run(c: &mut Ctx) {
         for &n in &NSEC_CLASSES {
             cases.push((s, n));
         }
+    }
+    // dense sweep: EVERY second in a window around every boundary point, nanosecond classes rotating so
+    // that each class meets each residue of the second modulo 60
+    {
+        let w = c.n(300, 3000) as i128;
+        let mut k = 0usize;
+        for &p in &pts {
+            for d in -w..=w {
+                let x = p + d;
+                if x < i64::MIN as i128 || x > i64::MAX as i128 {
+                    continue;
+                }
+                cases.push((x as i64, NSEC_CLASSES[(k + k / 60) % NSEC_CLASSES.len()]));
+                k += 1;
+            }
+        }
+        c.count_n("from:dense sweep around the boundary points (every second of the window)", k as u64);
     }
     let n_from = c.n(200_000, 2_400_000);
     for _ in 0..n_from {
@@ -499,6 +566,20 @@ pub fn run(c: &mut Ctx) {
             xs.push(clamp_i64(-unit + d));
             xs.push(clamp_i64(86_400 * unit + d));
             xs.push(clamp_i64(-86_400 * unit + d));
+        }
+        {
+            // dense sweep: every count in a window around 0, both range ends, both i64 ends, one day before the epoch
+            let w = c.n(300, 3000) as i128;
+            let before = xs.len();
+            for ctr in [0i128, lo as i128 * unit, (hi as i128 + 1) * unit, i64::MIN as i128, i64::MAX as i128, -86_400 * unit, 86_400 * unit] {
+                for d in -w..=w {
+                    let x = ctr + d;
+                    if x >= i64::MIN as i128 && x <= i64::MAX as i128 {
+                        xs.push(x as i64);
+                    }
+                }
+            }
+            c.count_n(&format!("{uname}:dense sweep (every count of the window around 0, the range ends, the i64 ends, +-1 day)"), (xs.len() - before) as u64);
         }
         for _ in 0..n_unit {
             let x = gen_count(c, unit, &pts);
@@ -653,6 +734,25 @@ pub fn run(c: &mut Ctx) {
                 vals.push(NaiveDateTime::new(d, NaiveTime::from_num_seconds_from_midnight_opt(secs, 0).unwrap().with_nanosecond(f).unwrap()));
             }
         }
+    }
+    {
+        // dense sweep: a value on EVERY second of a window around the epoch, both range ends (inside) and
+        // both ends of the i64-nanosecond window, nanosecond fields rotating through non-leap and leap
+        // classes (leap-second representations on any second); all of them also go through SystemTime
+        let w = c.n(100, 1000) as i64;
+        let before = vals.len();
+        let mut k = 0usize;
+        for ctr in [0i64, lo, hi, i64::MIN / 1_000_000_000, i64::MAX / 1_000_000_000] {
+            for d in -w..=w {
+                let s = ctr.saturating_add(d);
+                if s < lo || s > hi {
+                    continue;
+                }
+                vals.push(dt_at(s, FRAC_CLASSES[(k + k / 60) % FRAC_CLASSES.len()]));
+                k += 1;
+            }
+        }
+        c.count_n("get:dense sweep (a value on every second of the window around 0, the range ends, the i64-nanosecond window ends)", (vals.len() - before) as u64);
     }
     let n_hand = vals.len();
     let n_vals = c.n(200_000, 2_400_000);
@@ -817,7 +917,21 @@ pub fn run(c: &mut Ctx) {
                             fl.hit(c, "DateTime -> SystemTime -> DateTime is not the identity", &format!("ts.to_st {key}"));
                         }
                         if leap {
-                            c.count("st:leap-second value mapped to the following second");
+                            // theorem leap_st_back: the system time is `frac - 10^9` ns into the FOLLOWING second;
+                            // converting back gives the non-leap value at the same position there, and panics
+                            // exactly when the value sits on the last representable second (the following
+                            // second is outside the range, as for every system time outside it)
+                            let last = es == hi as i128;
+                            match &back {
+                                Err(()) if last => c.count("st:leap-second value on the last representable second: following second outside the range, From<SystemTime> panics"),
+                                Ok(v) if !last && inst_ns(v) == ens && v.nanosecond() < 1_000_000_000 && inst_secs(v) == es + 1 => {
+                                    c.count(if strict { "st:leap-second value on :59 comes back as the non-leap value in the following second" } else { "st:leap-second value off :59 comes back as the non-leap value in the following second" })
+                                }
+                                _ => fl.hit(c, "leap-second value -> SystemTime -> DateTime<Utc>: not the non-leap value at the same position in the following second / not a panic exactly on the last representable second", &format!("ts.to_st {key} -> {s} {n} -> {:?}", back.map(|v| show_dt(&v)))),
+                            }
+                            if s != es + 1 || n as i128 != frac as i128 - NS {
+                                fl.hit(c, "SystemTime::from(leap-second value) is not `frac - 10^9` ns into the following second", &format!("ts.to_st {key} -> {s} {n}"));
+                            }
                         }
                     }
                     Err(()) => fl.hit(c, "SystemTime::from(DateTime) panicked", &format!("ts.to_st {key}")),
@@ -862,7 +976,22 @@ pub fn run(c: &mut Ctx) {
                     lx.push((gen_count(c, u, &pts), unit));
                 }
             }
-            let (ops, fails, cnt) = through_local(tz, lv, lc, lx);
+            // system times for `DateTime::<Local>::from`: around the epoch (both branches of duration_since,
+            // the borrow), both range ends (inside and outside), the platform extremes, and random ones
+            let mut ls: Vec<(i64, u32)> = vec![(i64::MIN, 0), (i64::MIN + 1, 1), (i64::MAX, 999_999_999), (i64::MAX, 0)];
+            for s0 in [0i64, lo, hi, -86_400, 86_400, i64::MIN / 1_000_000_000, i64::MAX / 1_000_000_000] {
+                for ds in -3i64..=3 {
+                    for n in [0u32, 1, 499_999_999, 500_000_000, 999_999_999] {
+                        ls.push((s0 + ds, n));
+                    }
+                }
+            }
+            for _ in 0..n_loc {
+                let s = gen_secs(c, &pts);
+                let n = if c.rng.chance(1, 3) { *c.rng.pick(&[0u32, 1, 999_999_999, 500_000_000]) } else { c.rng.nanos() };
+                ls.push((s, n));
+            }
+            let (ops, fails, cnt) = through_local(tz, lv, lc, lx, ls);
             for (line, got) in ops {
                 c.op(&line, &got);
             }
@@ -884,6 +1013,20 @@ pub fn run(c: &mut Ctx) {
                 sts.push((s0 + ds, n));
             }
         }
+    }
+    {
+        // dense sweep: every second of a window around the epoch and both range ends
+        let w = c.n(300, 3000) as i64;
+        let ncl = [0u32, 1, 2, 499_999_999, 500_000_000, 999_999_998, 999_999_999];
+        let before = sts.len();
+        let mut k = 0usize;
+        for ctr in [0i64, lo, hi] {
+            for d in -w..=w {
+                sts.push((ctr + d, ncl[k % ncl.len()]));
+                k += 1;
+            }
+        }
+        c.count_n("st:dense sweep (every second of the window around the epoch and both range ends)", (sts.len() - before) as u64);
     }
     for _ in 0..n_st {
         let s = gen_secs(c, &pts);
